@@ -91,6 +91,19 @@ impl X509Certificate {
 		})
 	}
 
+	/// Checks that `pem_data` is a chain of parsable certificates and that the first one has been
+	/// issued for `key_pair`.
+	pub fn check_chain(pem_data: &[u8], key_pair: &KeyPair) -> Result<(), Error> {
+		let chain = X509::stack_from_pem(pem_data)?;
+		let leaf = chain
+			.first()
+			.ok_or_else(|| Error::from("no certificate found"))?;
+		if !leaf.public_key()?.public_eq(&key_pair.inner_key) {
+			return Err("the certificate does not match the private key".into());
+		}
+		Ok(())
+	}
+
 	pub fn from_pem_native(pem_data: &[u8]) -> Result<native_tls::Certificate, Error> {
 		Ok(native_tls::Certificate::from_pem(pem_data)?)
 	}
